@@ -8,7 +8,8 @@
 // step functions itself, in the order the op file dictates (DESIGN §2.3):
 //
 //	adv <ns>                         advance the fake clock
-//	span <tid> <root> <bytes> <age>  CollectorWorker.processSpan on the owning worker; afterwards the
+//	span <tid> <root> <bytes> <age> [<kind>]  kind 0 span / 1 span event / 2 link (meta.annotation_type);
+//	                                 CollectorWorker.processSpan on the owning worker; afterwards the
 //	                                 span's wall-clock ArrivalTime is back-dated by <age> ns (CacheImpact
 //	                                 reads the wall clock, not the injected clock)
 //	tick <w>                         CollectorWorker.sendExpiredTracesInCache(clock.Now())
@@ -194,7 +195,21 @@ func idOf(tid string) int {
 	return n
 }
 
-func (g *rig) mkSpan(tid string, root bool, bytes int) *types.Span {
+// kind: 0 plain span, 1 span event, 2 span link (meta.annotation_type, as types.Span.AnnotationType reads it)
+func (g *rig) mkSpan(tid string, root bool, bytes int, kind ...int) *types.Span {
+	sp := g.mkPlainSpan(tid, root, bytes)
+	if len(kind) > 0 {
+		switch kind[0] {
+		case 1:
+			sp.Data.Set(types.MetaAnnotationType, "span_event")
+		case 2:
+			sp.Data.Set(types.MetaAnnotationType, "link")
+		}
+	}
+	return sp
+}
+
+func (g *rig) mkPlainSpan(tid string, root bool, bytes int) *types.Span {
 	data := map[string]any{}
 	if bytes > 0 {
 		data["p"] = strings.Repeat("x", bytes-1)
@@ -416,7 +431,11 @@ func (comp) Gen(r *kit.Rng, maxLen int, tier string) kit.Case {
 		if root {
 			b = 1
 		}
-		ops = append(ops, fmt.Sprintf("span %d %d %d %d", k, b, bytes, age))
+		kind := 0
+		if !root {
+			kind = r.Pick(65, 25, 10) // plain span, span event, span link
+		}
+		ops = append(ops, fmt.Sprintf("span %d %d %d %d %d", k, b, bytes, age, kind))
 	}
 	total := func() int {
 		s := 0
@@ -458,7 +477,7 @@ func (comp) Gen(r *kit.Rng, maxLen int, tier string) kit.Case {
 					t.limitAt = now
 				}
 			}
-			ops = append(ops, fmt.Sprintf("span %d 0 %d %d", id, bytes, age))
+			ops = append(ops, fmt.Sprintf("span %d 0 %d %d %d", id, bytes, age, r.Pick(60, 30, 10)))
 		}
 		if r.Chance(50) {
 			emit(a, small, k*effTT/4)
@@ -590,7 +609,11 @@ func (r *runner) Do(op []string) (string, bool) {
 		bytes, _ := strconv.Atoi(op[3])
 		age, _ := strconv.ParseInt(op[4], 10, 64)
 		w := collect.VerifDeadlineWorkerFor(g.coll, tid)
-		sp := g.mkSpan(tid, root, bytes)
+		kind := 0
+		if len(op) > 5 {
+			kind, _ = strconv.Atoi(op[5])
+		}
+		sp := g.mkSpan(tid, root, bytes, kind)
 		kit.Ext("w = %d", w)
 		kit.Ext("size = %d", sp.GetDataSize())
 		collect.VerifDeadlineProcessSpan(g.coll, w, sp)
